@@ -319,5 +319,5 @@ def _flavourless(bg):
     import collections
     out = collections.Counter()
     for k, n in bg.items():
-        out[(k[0], re.sub(r'gdsl::(sync_digraph|sync_ungraph|digraph|ungraph)::', 'gdsl::F::', k[1]), k[2], tuple(re.sub(r'gdsl::(sync_digraph|sync_ungraph|digraph|ungraph)::', 'gdsl::F::', c) for c in k[3]))] += n
+        out[(k[0], re.sub(r'gdsl::(sync_digraph|sync_ungraph|digraph|ungraph)::', 'gdsl::F::', k[1]), k[2], tuple(re.sub(r'gdsl::(sync_digraph|sync_ungraph|digraph|ungraph)::', 'gdsl::F::', c) for c in k[3]), k[4] if len(k) > 4 else ())] += n
     return out
